@@ -626,6 +626,10 @@ bool expression_t::equal(const expression_t& e) const
         return false;
     }
 
+    // the boolean constants true/false hold the same values as the integers 1/0 but are different literals
+    if (data->kind == CONSTANT && data->type.is(Constants::BOOL) != e.data->type.is(Constants::BOOL))
+        return false;
+
     for (uint32_t i = 0; i < get_size(); i++) {
         if (!data->sub[i].equal(e[i])) {
             return false;
